@@ -68,6 +68,8 @@ def st_file(draw, idx):
         "n": n, "feats": feats,
         "reopen": draw(st.lists(st.booleans(), min_size=rounds, max_size=rounds)),
         "replace": draw(st.one_of(st.none(), st.sampled_from(sorted(feats)))),
+        "replace_vals": draw(st.lists(st.one_of(st_float(0.2), st.integers(0, 1000)),
+                                      min_size=1, max_size=5)),
         "strip": draw(st.booleans()),
     }
 
@@ -122,7 +124,10 @@ def _write_file(path, fs, idx):
     hw.__exit__(None, None, None)
     if fs["replace"]:
         nm = fs["replace"]
-        new = _arr(nm, fs["feats"][nm]["vals"])[::-1].copy()
+        rv = fs["replace_vals"]
+        if nm in INT_FEATS:
+            rv = [int(abs(v)) if v == v and abs(v) < 2**31 else 3 for v in rv]
+        new = _arr(nm, [rv[i % len(rv)] for i in range(fs["n"])])
         with RTDCWriter(path, mode="replace") as hw:
             hw.store_feature(nm, new)
     if fs["strip"]:
